@@ -308,6 +308,9 @@ pub struct InstrCase {
     pub internal: bool,
     /// LDC: extend the stack first so that $ssp != $sp
     pub dirty_stack: bool,
+    /// stack above $ssp was used (filled with 0xFF) and released before the instruction
+    #[serde(default)]
+    pub stale_stack: bool,
 }
 
 type Vm = Interpreter<MemoryInstance, MemoryStorage, Script>;
@@ -426,6 +429,15 @@ fn run_instr(c: &InstrCase, obs: &mut Obs) -> Check {
         if c.kind == Kind::Ldc2 {
             m.write_noownerchecks(heap_buf, src_len as u64).map_err(|e| h("plant src", format!("{e:?}")))?.copy_from_slice(&c.value);
         }
+    }
+    if c.stale_stack && is_ldc {
+        // use and release the stack region LDC is going to load into: its bytes are stale, not zero
+        let n = ((c.len.min(8192) + 7) / 8 * 8 + 64) as u32;
+        let sp = vm.registers()[r(RegId::SP)];
+        run(&mut vm, op::cfei(n), "cfei-stale")?;
+        vm.memory_mut().write_noownerchecks(sp, n as u64).map_err(|e| h("plant stale stack", format!("{e:?}")))?.fill(0xFF);
+        run(&mut vm, op::cfsi(n), "cfsi-stale")?;
+        obs.class("ldc-over-stale-stack");
     }
     if c.dirty_stack && is_ldc {
         run(&mut vm, op::cfei(16), "cfei")?;
@@ -693,7 +705,9 @@ fn run_instr(c: &InstrCase, obs: &mut Obs) -> Check {
         }
     }
     // stack extent: only LDC may extend it
-    let want_extent = if is_ldc { after[r(RegId::SP)] } else { sp };
+    // (a stack that was used and released before keeps its old extent)
+    let old_extent = mem_before.stack_raw().len() as u64;
+    let want_extent = (if is_ldc { after[r(RegId::SP)] } else { sp }).max(old_extent);
     ensure!(now.verify(want_extent, 1u64).is_err() || want_extent >= hp, format!("{kname}:stack-extent"), "stack extent grew beyond {want_extent}; {ctxmsg}");
     // storage untouched
     {
@@ -769,9 +783,10 @@ fn instr_case() -> impl Strategy<Value = InstrCase> {
                 prop_oneof![5 => Just(Dst::Heap), 4 => Just(Dst::Stack), 1 => Just(Dst::Unowned), 1 => Just(Dst::Gap), 1 => Just(Dst::High)],
                 any::<bool>(),
                 prop_oneof![12 => Just(false), 1 => Just(true)],
+                prop_oneof![2 => Just(false), 1 => Just(true)],
             )
         })
-        .prop_map(|(kind, value, offset, len, target, id_loc, dst, internal, dirty_stack)| InstrCase { kind, value, target, offset, len, id_loc, dst, internal, dirty_stack })
+        .prop_map(|(kind, value, offset, len, target, id_loc, dst, internal, dirty_stack, stale_stack)| InstrCase { kind, value, target, offset, len, id_loc, dst, internal, dirty_stack, stale_stack })
 }
 
 /// exhaustive (L, offset, len) lattice for the five copying instructions, valid operands otherwise
@@ -804,6 +819,7 @@ fn enum_instr(_ctx: &Ctx, shard: usize, nshards: usize, sink: &mut dyn FnMut(Ins
                             dst: if internal { Dst::Heap } else { Dst::Stack },
                             internal,
                             dirty_stack: false,
+                            stale_stack: false,
                         };
                         if !sink(c) {
                             return;
